@@ -295,10 +295,22 @@ func init() {
 	register(&Scenario{
 		Prop:  "C19",
 		Level: "exploration",
-		Rule:  "two batches by run number. endpoint: request bodies up to and beyond 16 KiB built by structure-aware seeded mutation of valid requests of every verdict class (byte flips, truncation, line surgery, junk, oversize) plus random bytes, delivered through the chunking/failing reader to the real handler in front of the real witness, and arbitrary bytes to Proof.Unmarshal: no panic, a documented status. peers: one cycle of each real feeder (sumdb, tiles, pixel, rekor, serverless) and of the distributor, in a child process running a synctest bubble, against a stub peer whose log-signed checkpoint has size in {300, 0, 2^62, 2^62+5, 2^63-1, 2^63, 2^64-1} and a root of 32/0/5/33 bytes and whose responses suffer a seeded fault (truncation, 3 MB oversize, garbage, 5xx/404/301, stall past the timeout, empty, corruption, drop); the cycle must end with a result or an error; a CPU spin freezes a bubble, so the parent holds a wall-clock watchdog of 8 s (>= 1000x the normal cost) whose expiry is the violation. Seeded, structure-aware, not coverage-guided. non-trivial = a mutated body that got past the size line, or a peer case with a hostile size/root or a fault; distinct = distinct (status, mutation kind) and (feeder, size class, root length, fault kind, outcome)",
+		Rule:  "three batches by run number. service: the C14 Main-level world with scripts in which logs go backwards, fork and answer with faults; omniwitness.Main must not return on its own (process exit). endpoint: request bodies up to and beyond 16 KiB built by structure-aware seeded mutation of valid requests of every verdict class (byte flips, truncation, line surgery, junk, oversize) plus random bytes, delivered through the chunking/failing reader to the real handler in front of the real witness, and arbitrary bytes to Proof.Unmarshal: no panic, a documented status. peers: one cycle of each real feeder (sumdb, tiles, pixel, rekor, serverless) and of the distributor, in a child process running a synctest bubble, against a stub peer whose log-signed checkpoint has size in {300, 0, 2^62, 2^62+5, 2^63-1, 2^63, 2^64-1} and a root of 32/0/5/33 bytes and whose responses suffer a seeded fault (truncation, 3 MB oversize, garbage, 5xx/404/301, stall past the timeout, empty, corruption, drop); the cycle must end with a result or an error; a CPU spin freezes a bubble, so the parent holds a wall-clock watchdog of 8 s (>= 1000x the normal cost) whose expiry is the violation. Seeded, structure-aware, not coverage-guided. non-trivial = a mutated body that got past the size line, or a peer case with a hostile size/root or a fault; distinct = distinct (status, mutation kind) and (feeder, size class, root length, fault kind, outcome)",
 		Gen: func(r *Rng, tier string, n uint64) *Plan {
 			p := &Plan{Scenario: "hostile"}
 			p.Cfg = Config{Store: "mem", Dense: 64, WitKeys: []string{"ed:0", "cosig:0"}, Logs: []LogCfg{{Origin: "sim.example/h0", Key: 0, Forks: []ForkCfg{{Parent: 0, At: 1}}}}, Extra: map[string]int64{}, Notes: map[string]string{}}
+			if n%8 == 6 {
+				// the assembled service against logs that misbehave (go backwards, fork, serve garbage): it must not exit
+				q := scenarios["C14"].Gen(r, tier, n)
+				q.Scenario = "hostile-main"
+				if q.Cfg.Notes == nil {
+					q.Cfg.Notes = map[string]string{}
+				}
+				q.Cfg.Notes["mode"] = "main"
+				q.Ops = append(q.Ops, Op{K: "fork", L: r.IntN(len(q.Cfg.Logs)), M: Pick(r, "smaller", "same", "larger"), MV: r.Uint64(), D: uint64(r.IntN(50))})
+				q.Ops = append(q.Ops, Op{K: "grow", L: r.IntN(len(q.Cfg.Logs)), D: uint64(r.Range(1, 300))})
+				return q
+			}
 			if n%2 == 0 {
 				p.Cfg.Notes["mode"] = "endpoint"
 				return p
@@ -321,6 +333,22 @@ func init() {
 		},
 		Run: func(t *testing.T, p *Plan) *Outcome {
 			out := &Outcome{Stats: newStats()}
+			if p.Cfg.Notes["mode"] == "main" {
+				r := c14Exec(t, p)
+				if r.infra != "" {
+					out.Infra = []string{r.infra}
+					return out
+				}
+				out.Stats, out.Events = r.stats, r.events
+				for _, v := range r.viol {
+					if strings.Contains(v.Sig, "main_exited") || strings.Contains(v.Sig, "main_did_not_stop") {
+						out.Viol = append(out.Viol, Violation{Class: "exit", Sig: "exit/main", Detail: "hostile-log script against the assembled service: " + v.Detail})
+					}
+				}
+				out.Stats.Probes["main_level_hostile_scripts"]++
+				out.Distinct = []string{"main/" + p.Cfg.Notes["feeders"] + "/" + fmt.Sprint(len(p.Ops))}
+				return out
+			}
 			if p.Cfg.Notes["mode"] == "peers" {
 				var c c19Case
 				if err := json.Unmarshal([]byte(p.Cfg.Notes["case"]), &c); err != nil {
